@@ -62,6 +62,10 @@ PROPS = {
     "C10": dict(world="updater_world", level="exploration",
                 quick=dict(runs=8000, wall=300, chunk=100), thorough=dict(runs=300000, wall=1800, chunk=1000),
                 assumptions=COMMON_ASSUME + ["applied values compared with 2e-5 + 2e-4|b| (+1e-5 x total part magnitude); non-finite expectations (fractional powers of negative bases after leaving the range) are not judged"]),
+    "C12": dict(world="checkpoint_world", level="fault_enumeration",
+                quick=dict(runs=400, wall=500, chunk=5), thorough=dict(runs=15000, wall=2700, chunk=20),
+                assumptions=COMMON_ASSUME + ["checkpoints are taken at step boundaries (after update()); the restore target has seen at least one step unless the checkpoint itself is the unstepped state (k = 0)",
+                                             "no corrupted / torn checkpoints are injected: no property speaks of them"]),
     "C13": dict(world="record_world", level="exploration",
                 quick=dict(runs=40000, wall=240, chunk=500), thorough=dict(runs=1500000, wall=1500, chunk=4000),
                 assumptions=COMMON_ASSUME),
